@@ -128,6 +128,10 @@ class C05(vlib.Check):
             c = dbgen.gen_colorder(self.rng)
             self.count("columns-declared-in-different-orders")
             yield c
+        for _ in range(8 if self.tier == "quick" else 120):
+            c = dbgen.gen_subsetpat(self.rng)
+            self.count("subset-request-shapes")
+            yield c
         if self.id == "C05":
             # one very large accepted batch (a whole library added at once, beyond 2^16 rows; thorough: beyond 2^17), duplicate
             # names and a property column; rows, names, name index and the column are then read back around every power-of-two
